@@ -140,6 +140,9 @@ def materialise(tree, ordered, copy_mode):
             elif k == "N":
                 # directory without index.md: holds a file and a page that must be ignored (or copied verbatim)
                 files[f"pages/{rel}{s}/data.txt"] = "data"
+                # (copied verbatim means everything in it: also hidden files and names ending in `~`)
+                files[f"pages/{rel}{s}/.htaccess"] = "Options -Indexes\n"
+                files[f"pages/{rel}{s}/run~"] = "#!/bin/sh\n"
                 files[f"pages/{rel}{s}/ignored.md"] = "title: Ignored\n\nignored\n"
                 if s in copy_here or (copy_mode == "project" and s == "a_n") or (copy_mode == "project+rootpage" and s == "a_n" and not is_root) or (
                         copy_mode == "project+empty-override" and s == "a_n" and is_root):
@@ -151,6 +154,9 @@ def materialise(tree, ordered, copy_mode):
                 files[f"pages/{rel}.{s}.md"] = "title: Hidden\n\nhidden\n"
             elif k == "B":
                 files[f"pages/{rel}{s}.md~"] = "title: Backup\n\nbackup\n"
+                # (a saved copy whose name merely contains `.md.`: an attachment like any other file, not a page)
+                files[f"pages/{rel}{s}.md.bak"] = "title: Saved copy\n\nsaved\n"
+                exp["copied"].append(f"{rel}{s}.md.bak")
         exp["order"][rel or "."] = titles
         return titles
 
@@ -240,7 +246,7 @@ def run_case(st: Stats, tree, ordered, copy_mode, url_mode=False):
                 st.violation("file-not-copied", stratum, feats, inp, sorted(x for x in site.files if x.startswith("page/")), f"page/{f}")
                 break
         for d in exp["copied_dirs"]:
-            if f"page/{d}/data.txt" not in site.files:
+            if f"page/{d}/data.txt" not in site.files or not (r.out / "page" / d / ".htaccess").exists() or not (r.out / "page" / d / "run~").exists():
                 bad += 1
                 st.violation("copy_subdir-not-copied", stratum, feats, inp, sorted(x for x in site.files if x.startswith("page/")), f"page/{d}/data.txt")
                 break
